@@ -347,11 +347,12 @@ class Resolver:
 
     def record_component(self, t, i):
         """component i of a record constructed positionally (NamedTuple unpacking / indexing), else None"""
-        if t[0] == "call" and t[1][0] == "name" and t[1][1] in self.m.classes and not t[3]:
+        if t[0] == "call" and t[1][0] == "name" and t[1][1] in self.m.classes:
             fields = self._record_fields(t[1][1])
             ci = self.m.classes.get(t[1][1])
-            if fields is not None and getattr(ci, "bases", None) == ["NamedTuple"] and isinstance(i, int) and 0 <= i < len(t[2]) and len(t[2]) == len(fields):
-                return t[2][i]
+            if fields is not None and getattr(ci, "bases", None) == ["NamedTuple"] and isinstance(i, int) and 0 <= i < len(fields) and len(t[2]) + len(t[3]) == len(fields):
+                name = [n_ for n_, k_ in fields.items() if k_ == i][0]
+                return self._record_projection(t, name)
         return None
 
     def _record_projection(self, base, attr):
@@ -366,10 +367,15 @@ class Resolver:
                         uniq.append(p_)
                 return uniq[0] if len(uniq) == 1 else ("phi", tuple(uniq))
             return None
-        if base[0] == "call" and base[1][0] == "name" and base[1][1] in self.m.classes and not base[3]:
+        if base[0] == "call" and base[1][0] == "name" and base[1][1] in self.m.classes:
             fields = self._record_fields(base[1][1])
-            if fields is not None and attr in fields and fields[attr] < len(base[2]):
-                return base[2][fields[attr]]
+            if fields is not None and attr in fields:
+                kw = dict(base[3])
+                if len(kw) == len(base[3]) and set(kw) <= set(fields):
+                    if fields[attr] < len(base[2]) and attr not in kw:
+                        return base[2][fields[attr]]
+                    if attr in kw and fields[attr] >= len(base[2]):
+                        return kw[attr]
         return None
 
     def term_in_context(self, e):
@@ -535,6 +541,18 @@ class Resolver:
                     chain.append(st)
                     rec(desc[1], dat)
                     chain.pop()
+                    continue
+                if desc[0] == "val" and path and isinstance(desc[1], ast.Name) and (desc[1].id in self.defs or desc[1].id in self.fn.params):
+                    # `a, b = pair`: the origins of the pair, each projected (the site where the pair was built)
+                    n0 = len(out)
+                    chain.append(st)
+                    rec(desc[1], dat)
+                    chain.pop()
+                    for k_ in range(n0, len(out)):
+                        st_k, t_k = out[k_]
+                        for p in path:
+                            t_k = self._project(t_k, p)
+                        out[k_] = (st_k, t_k)
                     continue
                 if desc[0] == "val":
                     t = self.term(desc[1], at=dat)
